@@ -1,583 +1,351 @@
-"""Hunt for violations of C02 (marker & and | are sound) on the library as it is.
+"""C02 hunt (round 3) - run on the UNMODIFIED tree:
+    cd /tmp/wt/C02i && PYTHONPATH=/tmp/wt/C02i/src /venv/bin/python hunt_C02.py [scale]
 
-Run:  cd /tmp/wt/C02g && PYTHONPATH=/tmp/wt/C02g/src /venv/bin/python hunt_C02.py [quick]
+Prints every violation of C02 it finds (input, library answer, oracle answer).  The oracle is
+packaging's evaluation of every single atom, combined with Python's and/or (multi-valued
+`extra` handled as membership), i.e. independent of the library's simplifier.
+Known families (1)-(20) are kept out of the generators.
 
-Oracle: every *atom* is evaluated by packaging.markers.Marker on the concrete
-environment (``extra`` atoms by the documented multi-valued reading: normalised name
-in / not in the set), atoms are combined with Python's and/or, and that is compared
-with ``evaluate`` of what the library builds through parse_marker, ``&`` and ``|`` and
-through rendering the result and parsing it again.
-
-The script enumerates small scopes exhaustively (pairs, triples and some quadruples of
-atoms over one variable or over python_version/python_full_version) instead of
-sampling, and prints every disagreement that is outside the already known families.
+Parts:
+  general   random and/or trees over all variable kinds, a & b / a | b (strings through parse_marker)
+  build     the same trees built through a random mix of constructors, .of() and operators in both
+            operand orders, with Any/Empty members, single-member compounds
+  versions  python_version / python_full_version / platform_release only, unusual literals
+            (spaces, leading zeros, 0! epoch, trailing .0, 1-4 component wildcards, literal on
+            the left incl. ~= and wildcards)
+  grouped   exhaustive: EqualityMarkerUnion / InequalityMultiMarker / atoms (==, !=, in, not in,
+            both operand orders) on one variable, all pairs, & and |, plus render + re-parse
+  roundtrip str(result) re-parsed, only()/exclude()/without_extras() on results must not raise
 """
-from __future__ import annotations
+import random, sys, itertools, time
+from packaging.markers import Marker
+from dep_logic.markers import parse_marker, MarkerExpression, MultiMarker, MarkerUnion, AnyMarker, EmptyMarker
+from dep_logic.markers.single import EqualityMarkerUnion, InequalityMultiMarker
+from dep_logic.utils import OrderedSet
 
-import itertools
-import re
-import sys
-import time
-
-from packaging.markers import Marker as PM
-
-from dep_logic.markers import parse_marker
-
-QUICK = len(sys.argv) > 1 and sys.argv[1] == "quick"
-
-
-def norm(n: str) -> str:
-    return re.sub(r"[-_.]+", "-", n).lower()
+STR_VARS = ["os_name", "sys_platform", "platform_machine", "platform_system", "implementation_name", "platform_python_implementation", "platform_version"]
+STR_VALS = ["nt", "posix", "linux", "win32", "darwin", "x86_64", "arm64", "", "n", "lin", "Linux", "linux2", "posix nt", "a b"]
+PV = ["3.7", "3.8", "3.9", "3.10", "3.11", "2.7", "3", "3.0", "4.0", "3.8.0", "3.08", "3.8.1", "3.*", "3.8.*", "0", "1!3.8", "3.8.0.0"]
+PFV = PV + ["3.8.5", "3.9.0", "3.9.1", "3.10.0", "3.8.10", "3.8.0.1", "3.8.5.*", "3.10.2", "4", "3.7.9"]
+VOPS = ["==", "!=", "<", "<=", ">", ">=", "~="]
+EXTRAS = ["a", "b", "A", "a_b", "a-b", "A.B", "c"]
 
 
-_pm: dict[str, PM] = {}
-_extra_re = re.compile(r'^(?:extra (==|!=) "(.*)"|"(.*)" (==|!=) extra)$')
-
-
-def eval_atom(a: str, env: dict) -> bool:
-    m = _extra_re.match(a)
-    if m:
-        op = m.group(1) or m.group(4)
-        v = m.group(2) if m.group(1) else m.group(3)
-        has = norm(v) in {norm(x) for x in env["extra"]}
-        return has if op == "==" else not has
-    pm = _pm.get(a)
-    if pm is None:
-        pm = _pm[a] = PM(a)
-    e = dict(env)
-    e["extra"] = ""
-    return pm.evaluate(e)
-
-
-BASE_ENV = {
-    "os_name": "posix",
-    "sys_platform": "linux",
-    "platform_machine": "x86_64",
-    "platform_system": "Linux",
-    "platform_python_implementation": "CPython",
-    "implementation_name": "cpython",
-    "platform_version": "#1 SMP",
-    "platform_release": "5.10.0",
-    "implementation_version": "3.8.1",
-    "python_full_version": "3.8.1",
-    "python_version": "3.8",
-    "extra": set(),
-}
-
-
-def py_envs(versions):
-    for v in versions:
-        e = dict(BASE_ENV)
-        e["python_full_version"] = v
-        e["python_version"] = ".".join(v.split(".")[:2])
-        yield e
-
-
-def var_envs(name, values):
-    for v in values:
-        e = dict(BASE_ENV)
-        e[name] = v
-        yield e
-
-
-found: list[str] = []
-stats = {"cases": 0, "evals": 0}
-
-
-def combos(atoms_truth, n):
-    """All and/or trees over n atoms (left/right nested and flat groupings)."""
-    if n == 2:
-        shapes = ["{0} and {1}", "{0} or {1}"]
-    elif n == 3:
-        shapes = [
-            "({0} and {1}) or {2}", "({0} or {1}) and {2}", "{0} and {1} and {2}",
-            "{0} or {1} or {2}", "{0} and ({1} or {2})", "{0} or ({1} and {2})",
-        ]
+def gen_atom(rng):
+    k = rng.random()
+    if k < 0.35:
+        name = rng.choice(STR_VARS)
+        op = rng.choice(["==", "!=", "in", "not in", "==", "!="])
+        val = rng.choice(STR_VALS)
+        rev = rng.random() < 0.25
+    elif k < 0.8:
+        name = rng.choice(["python_version", "python_full_version", "python_version", "python_full_version", "platform_release", "implementation_version"])
+        op = rng.choice(VOPS)
+        val = rng.choice(PV if name == "python_version" else PFV)
+        if op == "~=" and ("*" in val or "." not in val):
+            op = ">="
+        if "*" in val and op not in ("==", "!="):
+            op = "=="
+        rev = rng.random() < 0.2
+        if rev and (op == "~=" or "*" in val):
+            rev = False
+    elif k < 0.93:
+        name = "extra"
+        op = rng.choice(["==", "!="])
+        val = rng.choice(EXTRAS)
+        rev = rng.random() < 0.2
     else:
-        shapes = [
-            "({0} or {1}) and ({2} or {3})", "({0} and {1}) or ({2} and {3})",
-            "({0} and {1}) and ({2} or {3})", "({0} or {1}) or ({2} and {3})",
-            "({0} and {1}) and ({2} and {3})", "({0} or {1}) or ({2} or {3})",
-        ]
-    return shapes
+        name = rng.choice(["extras", "dependency_groups"])
+        op = rng.choice(["in", "not in"])
+        val = rng.choice(EXTRAS)
+        rev = True
+    return ("atom", name, op, val, rev)
 
 
-def shape_eval(shape: str, vals):
-    expr = shape.format(*["V%d" % i for i in range(len(vals))])
-    return eval(expr, {}, {"V%d" % i: v for i, v in enumerate(vals)})
+REFL = {"<": ">", "<=": ">=", ">": "<", ">=": "<=", "==": "==", "!=": "!=", "~=": "~=", "in": "in", "not in": "not in"}
 
 
-def check_group(label, atoms, envs, sizes=(2, 3), limit=None):
-    """atoms: list of atom strings over the envs; exhaustive over ordered tuples."""
-    envs = list(envs)
-    truth = {}
-    for a in atoms:
-        try:
-            truth[a] = [eval_atom(a, e) for e in envs]
-        except Exception as exc:  # atom not well defined for packaging on these envs
-            truth[a] = None
-    good = [a for a in atoms if truth[a] is not None]
-    t0 = time.time()
-    for n in sizes:
-        shapes = combos(None, n)
-        count = 0
-        for tup in itertools.permutations(good, n) if n < 4 else itertools.product(good, repeat=n):
-            if limit and count >= limit:
-                break
-            count += 1
-            for shape in shapes:
-                text = shape.format(*tup)
-                stats["cases"] += 1
-                # also build it with the operators from the parsed halves
-                try:
-                    m = parse_marker(text)
-                    variants = [("parse", m)]
-                    if n == 2:
-                        a, b = parse_marker(tup[0]), parse_marker(tup[1])
-                        variants.append(("op", (a & b) if " and " in shape else (a | b)))
-                    elif n == 4:
-                        mm = re.match(r"^\((.*?)\) (and|or) \((.*)\)$", text)
-                        l, r = parse_marker(mm.group(1)), parse_marker(mm.group(3))
-                        variants.append(("op", (l & r) if mm.group(2) == "and" else (l | r)))
-                    s = str(variants[-1][1])
-                    if s and s != "<empty>":
-                        variants.append(("reparse", parse_marker(s)))
-                except Exception as exc:
-                    msg = f"[{label}] {text!r}: building raised {type(exc).__name__}: {exc}"
-                    if msg not in found:
-                        found.append(msg)
-                        print(msg)
-                    continue
-                for i, env in enumerate(envs):
-                    exp = shape_eval(shape, [truth[a][i] for a in tup])
-                    for how, mk in variants:
-                        stats["evals"] += 1
-                        try:
-                            got = mk.evaluate(env)
-                        except Exception as exc:
-                            got = f"{type(exc).__name__}: {exc}"
-                        if got != exp:
-                            key = f"[{label}] {text!r} via {how} -> {str(mk)!r}"
-                            if not any(f.startswith(key) for f in found):
-                                msg = (
-                                    f"{key}: env {label_env(env)} library={got} oracle={exp}"
-                                )
-                                found.append(msg)
-                                print(msg)
-    print(f"  .. {label}: {len(good)} atoms, sizes {sizes}, {time.time() - t0:.1f}s", flush=True)
+def atom_str(a):
+    _, name, op, val, rev = a
+    if rev:
+        return f'"{val}" {op} {name}'
+    return f'{name} {op} "{val}"'
 
 
-def label_env(env):
-    return {k: v for k, v in env.items() if BASE_ENV.get(k) != v or k in ("python_full_version",)}
+def gen_tree(rng, depth):
+    if depth == 0 or rng.random() < 0.3:
+        return gen_atom(rng)
+    n = rng.choice([2, 2, 3])
+    return (rng.choice(["and", "or"]), [gen_tree(rng, depth - 1) for _ in range(n)])
 
 
-def vatoms(name, ops_values, reversed_values=()):
+def tree_str(t):
+    if t[0] == "atom":
+        return atom_str(t)
+    return "(" + f" {t[0]} ".join(tree_str(c) for c in t[1]) + ")"
+
+
+def atoms(t):
+    if t[0] == "atom":
+        yield t
+    else:
+        for c in t[1]:
+            yield from atoms(c)
+
+
+_cache = {}
+
+
+def eval_atom(a, env):
+    s = atom_str(a)
+    m = _cache.get(s)
+    if m is None:
+        m = _cache[s] = Marker(s)
+    if a[1] == "extra":
+        # multi-valued extra: == is membership, != non membership
+        ex = env["extra"]
+        from packaging.utils import canonicalize_name
+        v = canonicalize_name(a[3])
+        s_ = {canonicalize_name(x) for x in ex}
+        return (v in s_) if a[2] == "==" else (v not in s_)
+    e = dict(env)
+    e.pop("extra")
+    return m.evaluate(e, context="lock_file")
+
+
+def eval_tree(t, env):
+    if t[0] == "atom":
+        return eval_atom(t, env)
+    if t[0] == "and":
+        return all(eval_tree(c, env) for c in t[1])
+    return any(eval_tree(c, env) for c in t[1])
+
+
+def gen_envs(rng, ats, n):
+    fulls = ["3.7.0", "3.7.9", "3.8.0", "3.8.1", "3.8.5", "3.8.10", "3.9.0", "3.9.1", "3.10.0", "3.10.2", "3.11.4", "2.7.18", "3.0.0", "3.0.1", "4.0.0", "3.8.0.1", "0.0.0", "3.1.0", "1!3.8.0", "3.8", "3.9", "4.0.1"]
     out = []
-    for op, values in ops_values.items():
-        for v in values:
-            out.append(f'{name} {op} "{v}"')
-    for op, values in dict(reversed_values).items():
-        for v in values:
-            out.append(f'"{v}" {op} {name}')
+    for _ in range(n):
+        full = rng.choice(fulls)
+        from packaging.version import Version
+        v = Version(full)
+        pv = (f"{v.epoch}!" if v.epoch else "") + ".".join(map(str, (v.release + (0,))[:2]))
+        env = {
+            "python_full_version": full,
+            "python_version": pv,
+            "platform_release": rng.choice(fulls),
+            "implementation_version": rng.choice(fulls),
+            "extra": set(rng.sample(EXTRAS, rng.randint(0, 3))),
+            "extras": set(rng.sample(EXTRAS, rng.randint(0, 3))),
+            "dependency_groups": set(rng.sample(EXTRAS, rng.randint(0, 3))),
+        }
+        for sv in STR_VARS:
+            env[sv] = rng.choice(STR_VALS)
+        out.append(env)
     return out
 
 
-def main():
-    pyvers = [
-        "2.7.18", "3.0.0", "3.0.1", "3.1.0", "3.7.0", "3.7.9", "3.8.0", "3.8.1", "3.8.2", "3.8.10",
-        "3.9.0", "3.9.1", "3.10.0", "3.10.1", "3.11.0", "4.0.0", "4.0.1", "4.1.0",
-    ]
-    cmp_ops = ["<", "<=", ">", ">="]
-
-    # 1. python_full_version alone: many spellings of the same bounds
-    vals = ["3", "3.8", "3.8.0", "3.8.1", "3.9", "3.9.0", "3.10", "4", "4.0", "3.8.0.0", "3.8.1.0"]
-    if QUICK:
-        vals = ["3.8", "3.8.0", "3.8.1", "3.9", "4"]
-    pfv = vatoms(
-        "python_full_version",
-        {**{op: vals for op in cmp_ops}, "==": vals + ["3.*", "3.8.*", "3.8.1.*", "3.8.0.*"],
-         "!=": vals[:6] + ["3.*", "3.8.*", "3.8.1.*"], "~=": ["3.8", "3.8.0", "3.8.1", "3.0", "3.8.0.0", "3.8.1.0"]},
-        {"<": ["3.8", "3.8.1"], ">=": ["3.9", "3.8.0"], "==": ["3.8.1", "3.8"], "!=": ["3.8.0"]},
-    )
-    check_group("pfv", pfv, py_envs(pyvers), sizes=(2,))
-    check_group("pfv3", pfv[:: 3 if not QUICK else 5], py_envs(pyvers), sizes=(3,))
-
-    # 2. python_version alone
-    pvals = ["3", "3.0", "3.8", "3.8.0", "3.9", "3.10", "3.10.0", "4", "3.8.1", "3.8.0.0"]
-    if QUICK:
-        pvals = ["3", "3.8", "3.8.0", "3.9", "3.10"]
-    pv = vatoms(
-        "python_version",
-        {**{op: pvals for op in cmp_ops}, "==": pvals + ["3.*", "3.8.*", "3.10.*", "3.8.0.*"],
-         "!=": pvals[:7] + ["3.*", "3.8.*"], "~=": ["3.8", "3.0", "3.8.0", "3.10", "3.8.1", "3.8.0.0"]},
-        {"<": ["3.8", "3.10"], ">=": ["3.9", "3"], "==": ["3.8", "3.8.0"], "!=": ["3.10"]},
-    )
-    check_group("pv", pv, py_envs(pyvers), sizes=(2,))
-
-    # 3. python_version x python_full_version (ordered pairs both ways, triples on a thinned pool)
-    mixed = pv + pfv
-    envs = list(py_envs(pyvers))
-    truth_ok = []
-    check_group("pv*pfv", mixed, envs, sizes=(2,))
-    check_group("pv*pfv 3", (pv[::4] + pfv[::5]) if not QUICK else (pv[::9] + pfv[::11]), envs, sizes=(3,))
-    check_group("pv*pfv 4", pv[1::11] + pfv[2::13], envs, sizes=(4,), limit=4000 if not QUICK else 300)
-
-    # 4. platform_release with valid versions of 1..4 segments and an epoch
-    rels = ["4.19", "5", "5.0", "5.4.0", "5.10", "5.10.0", "5.10.0.1", "5.10.1", "5.11", "6", "6.0.0", "6.1", "10", "21.6.0", "1!1.0"]
-    rvals = ["5", "5.0", "5.10", "5.10.0", "5.10.1", "6", "6.0", "1!0", "1!1.0", "0!5.10"]
-    rel = vatoms(
-        "platform_release",
-        {**{op: rvals for op in cmp_ops}, "==": rvals + ["5.*", "5.10.*", "5.10.0.*", "1!1.*"],
-         "!=": rvals + ["5.*", "5.10.*", "1!1.*"], "~=": ["5.0", "5.10", "5.10.0", "5.10.0.0", "1!1.0", "5.4.0"]},
-        {"<": ["5.10", "6"], ">=": ["5.10.0"], "==": ["5.10"], "!=": ["6"]},
-    )
-    check_group("platform_release", rel if not QUICK else rel[::3], var_envs("platform_release", rels), sizes=(2,))
-    check_group("platform_release 3", rel[::4] if not QUICK else rel[::9], var_envs("platform_release", rels), sizes=(3,))
-
-    # 5. implementation_version (compared as a version when evaluated)
-    iv = vatoms(
-        "implementation_version",
-        {**{op: ["3.8", "3.8.0", "3.8.1", "3.10"] for op in cmp_ops}, "==": ["3.8", "3.8.0", "3.8.*", "3.10"],
-         "!=": ["3.8", "3.8.0", "3.8.*"], "~=": ["3.8", "3.8.0"], "in": ["3.8", "3.8.0 3.10"], "not in": ["3.8.0"]},
-        {"==": ["3.8"], "<": ["3.10"], "in": ["3.8"]},
-    )
-    check_group("implementation_version", iv, var_envs("implementation_version", ["3.8", "3.8.0", "3.8.1", "3.10", "3.10.0", "7.3.9", "3.8.0.0"]), sizes=(2, 3) if not QUICK else (2,))
-
-    # 6. one string variable: values that are substrings / superstrings / equal up to case
-    svals = ["", "a", "ab", "abc", "b", "a b", "A", "ab abc"]
-    s_env = ["", "a", "ab", "abc", "b", "c", "A", "a b", "ab abc", "abcd"]
-    st = vatoms(
-        "os_name",
-        {"==": svals, "!=": svals, "in": svals, "not in": svals},
-        {"==": ["a", "ab"], "!=": ["a", "ab"], "in": ["", "a", "ab", "b"], "not in": ["", "a", "ab", "b"]},
-    )
-    check_group("os_name", st, var_envs("os_name", s_env), sizes=(2,))
-    st3 = [a for a in st if not any(x in a for x in ('"A"', '"a b"'))]
-    check_group("os_name 3", st3[::2] if not QUICK else st3[::5], var_envs("os_name", s_env), sizes=(3,))
-    # groups: (== or ==) / (!= and !=) against everything, and against each other
-    eqs = [f'os_name == "{v}"' for v in ["a", "ab", "abc", "b"]]
-    nes = [f'os_name != "{v}"' for v in ["a", "ab", "abc", "b"]]
-    quad_pool = eqs + nes + ['os_name in "ab abc"', 'os_name not in "ab abc"', '"a" in os_name', '"b" not in os_name', '"a" == os_name']
-    check_group("os_name 4", quad_pool, var_envs("os_name", s_env), sizes=(4,), limit=None if not QUICK else 500)
-
-    # 7. platform_version / platform_machine: version looking strings stay strings
-    pvv = vatoms(
-        "platform_version",
-        {"==": ["1.0", "1.0.0", "#1 SMP"], "!=": ["1.0", "1.0.0"], "in": ["1.0", "1.0.0", "#1 SMP x"], "not in": ["1.0", "1.0.0"]},
-        {"in": ["1.0", "SMP"], "not in": ["1.0"], "==": ["1.0"]},
-    )
-    check_group("platform_version", pvv, var_envs("platform_version", ["1.0", "1.0.0", "1", "#1 SMP", "#1 SMP x", ""]), sizes=(2, 3) if not QUICK else (2,))
-
-    # 8. extra: several spellings of one name, several names, several values at once
-    ex = [f'extra {op} "{v}"' for op in ("==", "!=") for v in ["a", "A", "a_b", "a-b", "A.B", "b", ""]]
-    ex += ['"a" == extra', '"A_B" != extra', '"b" != extra']
-    ex_envs = []
-    for s in [set(), {""}, {"a"}, {"A"}, {"b"}, {"a", "b"}, {"a_b"}, {"A-B", "a"}, {"a.b", "b"}, {"c"}, {"a", "a-b", "b"}]:
-        e = dict(BASE_ENV)
-        e["extra"] = s
-        ex_envs.append(e)
-        e2 = dict(e)
-        e2["os_name"] = "nt"
-        ex_envs.append(e2)
-    check_group("extra", ex, ex_envs, sizes=(2, 3) if not QUICK else (2,))
-    exo = ex[::3] + ['os_name == "nt"', 'os_name != "nt"', 'os_name == "posix"']
-    check_group("extra+os 4", exo, ex_envs, sizes=(4,), limit=None if not QUICK else 500)
-
-    # 9. two different variables + python: cnf/dnf rewriting, shared atoms
-    cross = [
-        'python_version >= "3.8"', 'python_version < "3.8"', 'python_full_version >= "3.8.1"', 'python_version == "3.9"',
-        'os_name == "nt"', 'os_name != "nt"', 'os_name == "posix"', 'sys_platform == "linux"', 'sys_platform != "linux"',
-        'extra == "a"', 'extra != "a"',
-    ]
-    cenvs = []
-    for v in ["3.7.9", "3.8.0", "3.8.1", "3.9.0", "3.10.0"]:
-        for osn in ["nt", "posix", "java"]:
-            for sp in ["linux", "win32"]:
-                for exs in [set(), {"a"}, {"a", "b"}]:
-                    e = dict(BASE_ENV)
-                    e.update(python_full_version=v, python_version=".".join(v.split(".")[:2]), os_name=osn, sys_platform=sp, extra=exs)
-                    cenvs.append(e)
-    check_group("cross 3", cross, cenvs, sizes=(3,))
-    check_group("cross 4", cross, cenvs, sizes=(4,), limit=None if not QUICK else 500)
-
-    lock_file_probe()
-    literal_probe()
-    odd_operand_probe()
-    random_fuzz(300 if QUICK else 3000, 1, seed=1)
-    random_fuzz(200 if QUICK else 3000, 2, seed=2)
-
-    print()
-    print(f"cases built: {stats['cases']}, evaluations compared: {stats['evals']}")
-    if found:
-        print(f"{len(found)} distinct disagreement(s) printed above")
-    else:
-        print("no violation of C02 found outside the known families")
+def lib_eval(m, env):
+    return m.evaluate(env, context="lock_file")
 
 
-# ---------------------------------------------------------------------------
-# further probes: lock_file context, awkward string literals, odd-but-legal version
-# operands, and a random generator of deeper markers
-# ---------------------------------------------------------------------------
-def report(msg):
-    if msg not in found:
-        found.append(msg)
-        print(msg)
-
-
-def lock_file_probe():
-    atoms = ['"a" in extras', '"a" not in extras', '"A_b" in extras', '"a-b" not in extras', '"b" in extras',
-             '"b" not in extras', '"x" in dependency_groups', '"x" not in dependency_groups',
-             '"X.y" in dependency_groups', 'os_name == "nt"', 'os_name != "nt"', 'python_version >= "3.8"']
-    envs = [
-        {"extras": ex, "dependency_groups": dg, "os_name": osn, "python_version": "3.8", "python_full_version": "3.8.1"}
-        for ex in [set(), {"a"}, {"b"}, {"a", "b"}, {"a-b"}, {"A_B", "b"}]
-        for dg in [set(), {"x"}, {"x-y"}, {"X_Y", "x"}]
-        for osn in ["nt", "posix"]
-    ]
-    shapes = ["{0} and {1}", "{0} or {1}", "({0} and {1}) or {2}", "({0} or {1}) and {2}", "{0} and {1} and {2}",
-              "{0} or {1} or {2}", "({0} or {1}) and ({2} or {3})", "({0} and {1}) or ({2} and {3})"]
-    for k in (2, 3) if QUICK else (2, 3, 4):
-        tuples = itertools.permutations(atoms, k) if k < 4 else itertools.product(atoms[:9], repeat=4)
-        for tup in tuples:
-            for sh in shapes:
-                if sh.count("{") != k:
-                    continue
-                text = sh.format(*tup)
-                stats["cases"] += 1
-                try:
-                    m = parse_marker(text)
-                    s = str(m)
-                    m2 = parse_marker(s) if s and s != "<empty>" else m
-                except Exception as exc:
-                    report(f"[lock_file] {text!r}: {type(exc).__name__}: {exc}")
-                    continue
-                for e in envs:
-                    vals = [PM(a).evaluate(e, context="lock_file") for a in tup]
-                    exp = shape_eval(sh, vals)
-                    for mm in (m, m2):
-                        stats["evals"] += 1
-                        got = mm.evaluate(e, context="lock_file")
-                        if got != exp:
-                            report(f"[lock_file] {text!r} -> {s!r}: env {e} library={got} oracle={exp}")
-    print("  .. lock_file context (extras / dependency_groups) done", flush=True)
-
-
-def literal_probe():
-    vals = ["a'b", 'a"b', "a\\\\b", "a\\nb", " a", "a ", "é", "A", "", "a\\tb", "x'y", "\\x41", "\\101",
-            "a,b", "(a)", "a and b"]
-    atoms = []
-    for v in vals:
-        lit = f"'{v}'" if '"' in v else f'"{v}"'
-        atoms += [f"os_name {op} {lit}" for op in ("==", "!=", "in", "not in")]
-        atoms += [f"{lit} in os_name", f"{lit} == os_name"]
-    good = []
-    for a in atoms:
-        try:
-            PM(a)
-            good.append(a)
-        except Exception:
-            pass
-    envs = [{"os_name": v} for v in ["a'b", 'a"b', "a\\b", "a\nb", " a", "a ", "é", "A", "", "a\tb", "a", "b", "x'y", "a,b", "(a)", "a and b"]]
-    pool = good[::3] if QUICK else good
-    for a, b in itertools.permutations(pool, 2):
-        for word in ("and", "or"):
-            stats["cases"] += 1
-            try:
-                ma, mb = parse_marker(a), parse_marker(b)
-                m = (ma & mb) if word == "and" else (ma | mb)
-                s = str(m)
-                m2 = parse_marker(s) if s and s != "<empty>" else m
-            except Exception as exc:
-                report(f"[literals] {a!r} {word} {b!r}: {type(exc).__name__}: {exc}")
-                continue
-            for e in envs:
-                ea, eb = PM(a).evaluate(e), PM(b).evaluate(e)
-                exp = (ea and eb) if word == "and" else (ea or eb)
-                for mm in (m, m2):
-                    stats["evals"] += 1
-                    if mm.evaluate(e) != exp:
-                        report(f"[literals] {a!r} {word} {b!r} -> {s!r}: env {e} library={mm.evaluate(e)} oracle={exp}")
-    print("  .. string literals with quotes / escapes / blanks done", flush=True)
-
-
-def odd_operand_probe():
-    atoms = """python_version >= "3.8"
-python_version == "3.8.*"
-python_version ~= "3.8"
-python_version ~= "3.8.0"
-"3.8" ~= python_version
-"3.8" == python_version
-"3.8.*" == python_version
-python_version >= " 3.8 "
-python_version == "03.08"
-python_version >= "v3.8"
-python_full_version ~= "3.8.0.0.0"
-python_full_version == "3.8.0.0.*"
-python_full_version == "1!3.8.*"
-python_full_version ~= "1!3.8"
-python_full_version >= "1!3"
-python_full_version < "1!0"
-python_full_version >= "3"
-python_full_version == "3"
-python_full_version != "3"
-python_full_version >= "0"
-python_full_version < "0"
-python_full_version == "0.*"
-python_full_version >= "V3.8"
-python_full_version >= "3.8.01"
-python_full_version >= "3.8.0.0.0.0.0.0"
-python_full_version >= "99999999999999999999.1"
-python_version > "99999999999999999999"
-platform_release ~= "5.10"
-platform_release == "5.*"
-platform_release != "5.10.*"
-platform_release == "5.10.0-generic"
-platform_release != "5.10.0-generic"
-implementation_version >= "3.8"
-implementation_version ~= "3.8"
-implementation_version == "3.8.*"
-os_name == "posix"
-os_name != "posix"
-os_name in "posix nt"
-"pos" in os_name
-extra == "a"
-extra != "a"
-extra == "A_.-b"
-"a" == extra
-platform_version == "#1 SMP"
-platform_version in "a, b"
-"x86" in platform_machine""".splitlines()
-    envs = []
-    for v in ["3.7.9", "3.8.0", "3.8.1", "3.9.0", "4.0.0"]:
-        e = dict(BASE_ENV)
-        e.update(python_full_version=v, python_version=".".join(v.split(".")[:2]), extra={"a"})
-        envs.append(e)
-    ok = []
-    for a in atoms:
-        try:
-            [eval_atom(a, e) for e in envs]
-            ok.append(a)
-        except Exception:
-            pass
-    for a, b in itertools.product(ok[::2] if QUICK else ok, repeat=2):
-        for word in ("and", "or"):
-            stats["cases"] += 1
-            try:
-                ma, mb = parse_marker(a), parse_marker(b)
-                m = (ma & mb) if word == "and" else (ma | mb)
-                s = str(m)
-                m2 = parse_marker(s) if s and s != "<empty>" else m
-            except Exception as exc:
-                report(f"[odd operands] {a!r} {word} {b!r}: {type(exc).__name__}: {exc}")
-                continue
-            for e in envs:
-                ea, eb = eval_atom(a, e), eval_atom(b, e)
-                exp = (ea and eb) if word == "and" else (ea or eb)
-                for mm in (m, m2):
-                    stats["evals"] += 1
-                    got = mm.evaluate(e)
-                    if got != exp:
-                        report(f"[odd operands] {a!r} {word} {b!r} -> {s!r}: env {label_env(e)} library={got} oracle={exp}")
-    print("  .. odd but legal operands (epochs, blanks, leading zeros, long releases, reversed ~=) done", flush=True)
-
-
-def random_fuzz(n, depth, seed):
-    """Random and/or trees (2-3 children per node) over a mixed atom pool; 3 s budget per case."""
-    import random
-    import signal
-
+def main(seed, n, depth=2):
     rng = random.Random(seed)
-    pyv = ["2.7.18", "3.0.0", "3.6.0", "3.7.9", "3.8.0", "3.8.1", "3.8.10", "3.9.0", "3.10.0", "3.10.1", "3.11.5", "4.0.0", "4.1.2"]
-    svars = {
-        "os_name": ["posix", "nt", "java", ""], "sys_platform": ["linux", "win32", "darwin", "cygwin", "linux2"],
-        "platform_machine": ["x86_64", "arm64", "aarch64"], "platform_system": ["Linux", "Windows", "Darwin"],
-        "platform_python_implementation": ["CPython", "PyPy"], "implementation_name": ["cpython", "pypy"],
-        "platform_version": ["#1 SMP", "1.0", "1.0.0"],
-    }
-    vpool = {
-        "python_version": (["3", "3.0", "3.7", "3.8", "3.8.0", "3.9", "3.10", "3.10.0", "3.8.1", "4", "2.7", "3.8.0.0"], ["3.*", "3.8.*", "3.10.*", "3.8.0.*"]),
-        "python_full_version": (["3", "3.8", "3.8.0", "3.8.1", "3.8.10", "3.9", "3.10.0", "3.10.1", "4", "3.8.0.0", "0!3.8", "3.08"], ["3.*", "3.8.*", "3.8.1.*", "3.10.*"]),
-        "platform_release": (["5", "5.10", "5.10.0", "6", "6.1", "6.0", "10"], ["5.*", "5.10.*", "6.0.*"]),
-        "implementation_version": (["3.8", "3.8.0", "3.8.1", "3.10"], ["3.*", "3.8.*"]),
-    }
-    tilde = ["3.8", "3.8.0", "3.8.1", "3.0", "3.10", "3.8.0.0", "5.10", "6.0", "5.10.0"]
-
-    def atom():
-        k = rng.random()
-        if k < 0.68:
-            name = rng.choices(list(vpool), [30, 25, 8, 5])[0]
-            vals, wild = vpool[name]
-            op = rng.choice(["==", "!=", "<", "<=", ">", ">=", "~="])
-            v = rng.choice(tilde) if op == "~=" else rng.choice(wild) if op in ("==", "!=") and rng.random() < 0.35 else rng.choice(vals)
-            if rng.random() < 0.2 and op != "~=" and "*" not in v:
-                return f'"{v}" {op} {name}'
-            return f'{name} {op} "{v}"'
-        if k < 0.80:
-            v, op = rng.choice(["a", "b", "A", "a_b", "a-b", "A.B", "c", ""]), rng.choice(["==", "!="])
-            return f'"{v}" {op} extra' if rng.random() < 0.2 else f'extra {op} "{v}"'
-        name = rng.choice(list(svars))
-        v = rng.choice(svars[name] + ["x", "lin", "win", "posix nt", "linux darwin"])
-        op = rng.choice(["==", "!=", "==", "!=", "in", "not in"])
-        return f'"{v}" {op} {name}' if rng.random() < 0.25 else f'{name} {op} "{v}"'
-
-    def tree(d):
-        if d == 0 or rng.random() < 0.3:
-            return atom()
-        return (rng.choice(["and", "or"]), [tree(d - 1) for _ in range(rng.choice([2, 2, 3]))])
-
-    def render(t):
-        return t if isinstance(t, str) else "(" + f" {t[0]} ".join(render(k) for k in t[1]) + ")"
-
-    def truth(t, env):
-        if isinstance(t, str):
-            return eval_atom(t, env)
-        vals = [truth(k, env) for k in t[1]]
-        return all(vals) if t[0] == "and" else any(vals)
-
-    def env():
-        v = rng.choice(pyv)
-        e = {k: rng.choice(vs) for k, vs in svars.items()}
-        e.update(python_full_version=v, python_version=".".join(v.split(".")[:2]),
-                 platform_release=rng.choice(["5.10.0", "6.1", "6", "10", "5.4.0", "5.10", "6.0.0"]),
-                 implementation_version=rng.choice(["3.8.0", "3.10.1", "7.3.9", "3.8"]),
-                 extra=rng.choice([set(), {""}, {"a"}, {"b"}, {"a", "b"}, {"A_b"}, {"a-b", "c"}, {"a.b"}]))
-        return e
-
-    class Timeout(BaseException):
-        pass
-
-    def on_alarm(*_):
-        raise Timeout()
-
-    signal.signal(signal.SIGALRM, on_alarm)
-    timeouts = 0
-    for _ in range(n):
-        ta, tb = tree(depth), tree(depth)
-        sa, sb = render(ta), render(tb)
-        stats["cases"] += 1
+    bad = 0
+    t0 = time.time()
+    for i in range(n):
+        ta = gen_tree(rng, rng.randint(0, depth))
+        tb = gen_tree(rng, rng.randint(0, depth))
+        sa, sb = tree_str(ta), tree_str(tb)
+        import signal
+        class TO(Exception): pass
+        def h(*_): raise TO()
+        signal.signal(signal.SIGALRM, h)
         signal.alarm(3)
         try:
-            a, b = parse_marker(sa), parse_marker(sb)
-            res = {"and": a & b, "or": a | b}
-            for word in ("and", "or"):
-                s = str(res[word])
-                res["re_" + word] = parse_marker(s) if s and s != "<empty>" else res[word]
-            for e in [env() for _ in range(25)]:
-                oa, ob = truth(ta, e), truth(tb, e)
-                for key, m in res.items():
-                    exp = (oa and ob) if key.endswith("and") else (oa or ob)
-                    stats["evals"] += 1
-                    got = m.evaluate(e)
-                    if got != exp:
-                        report(f"[random] {sa} {key} {sb} -> {str(m)!r}: env {label_env(e)} library={got} oracle={exp}")
-        except Timeout:
-            timeouts += 1  # exponential normalisation, a known family
-        except Exception as exc:
-            report(f"[random] {sa} / {sb}: {type(exc).__name__}: {exc}")
-        finally:
+            a = parse_marker(sa)
+            b = parse_marker(sb)
+            c = a & b
+            d = a | b
             signal.alarm(0)
-    print(f"  .. random markers: {n} operand pairs of depth {depth}, {timeouts} skipped after 3 s", flush=True)
+        except TO:
+            continue
+        except Exception as e:
+            signal.alarm(0)
+            print("EXC", repr(e), sa, "||", sb)
+            bad += 1
+            continue
+        envs = gen_envs(rng, None, 12)
+        for env in envs:
+            ea, eb = eval_tree(ta, env), eval_tree(tb, env)
+            try:
+                got = (lib_eval(a, env), lib_eval(b, env), lib_eval(c, env), lib_eval(d, env))
+            except Exception as e:
+                print("EXC-eval", repr(e), sa, "||", sb)
+                bad += 1
+                break
+            exp = (ea, eb, ea and eb, ea or eb)
+            if got != exp or (c.is_empty() and exp[2]) or (d.is_any() and not exp[3]) or (c.is_any() and not exp[2]) or (d.is_empty() and exp[3]):
+                print("MISMATCH", i, sa, "||", sb, "\n   ", env, "\n   got", got, "exp", exp, "\n   a=", a, "| b=", b, "| and=", c, "| or=", d)
+                bad += 1
+                break
+        if bad > 5:
+            break
+    print("done", n, "bad", bad, "time", time.time() - t0)
+    return bad
+
+
+
+
+import signal
+
+
+class _TO(Exception):
+    pass
+
+
+def _h(*_):
+    raise _TO()
+
+
+signal.signal(signal.SIGALRM, _h)
+
+
+def build(t, rng):
+    if t[0] == "atom":
+        _, name, op, val, rev = t
+        if rng.random() < 0.5:
+            return parse_marker(atom_str(t))
+        return MarkerExpression(name, REFL[op] if rev else op, val, rev)
+    kids = [build(c, rng) for c in t[1]]
+    r = rng.random()
+    cls, ident, fold = (MultiMarker, AnyMarker(), lambda x, y: x & y) if t[0] == "and" else (MarkerUnion, EmptyMarker(), lambda x, y: x | y)
+    if r < 0.3:
+        return cls(*kids)
+    if r < 0.5:
+        return cls.of(*kids)
+    if r < 0.6:
+        return cls(*kids, ident)
+    rng.shuffle(kids)
+    out = kids[0]
+    for k in kids[1:]:
+        out = fold(out, k) if rng.random() < 0.5 else fold(k, out)
+    return out
+
+
+def run_random(label, seed, n, depth, use_build=False, roundtrip=False):
+    rng = random.Random(seed)
+    bad = skipped = 0
+    for i in range(n):
+        ta = gen_tree(rng, rng.randint(0, depth))
+        tb = gen_tree(rng, rng.randint(0, depth))
+        sa, sb = tree_str(ta), tree_str(tb)
+        signal.alarm(3)
+        try:
+            if use_build:
+                a, b = build(ta, rng), build(tb, rng)
+            else:
+                a, b = parse_marker(sa), parse_marker(sb)
+            res = [(a & b, "and"), (a | b, "or"), (b & a, "and"), (b | a, "or")]
+            if roundtrip:
+                extra_res = []
+                for m, k in res:
+                    if not (m.is_any() or m.is_empty()):
+                        extra_res.append((parse_marker(str(m)), k))
+                    str(m.without_extras()); str(m.only("python_version", "os_name")); str(m.exclude("python_full_version"))
+                res += extra_res
+            signal.alarm(0)
+        except _TO:
+            skipped += 1  # exponential blow-up: known family (9)
+            continue
+        except Exception as e:
+            signal.alarm(0)
+            print(f"[{label}] EXCEPTION {type(e).__name__}: {e}\n    a = {sa}\n    b = {sb}")
+            bad += 1
+            continue
+        for env in gen_envs(rng, None, 10):
+            ea, eb = eval_tree(ta, env), eval_tree(tb, env)
+            try:
+                ok = lib_eval(a, env) == ea and lib_eval(b, env) == eb
+                for m, k in res:
+                    exp = (ea and eb) if k == "and" else (ea or eb)
+                    ok = ok and lib_eval(m, env) == exp and not (m.is_empty() and exp) and not (m.is_any() and not exp)
+            except Exception as e:
+                print(f"[{label}] EXCEPTION in evaluate {type(e).__name__}: {e}\n    a = {sa}\n    b = {sb}")
+                bad += 1
+                break
+            if not ok:
+                print(f"[{label}] VIOLATION\n    a = {sa}\n    b = {sb}\n    env = {env}\n    oracle: a={ea} b={eb}\n    library: a={lib_eval(a, env)} b={lib_eval(b, env)} " + " ".join(f"{k}:<{m}>={lib_eval(m, env)}" for m, k in res))
+                bad += 1
+                break
+    print(f"[{label}] {n} pairs, {skipped} skipped for run time, {bad} violations")
+    return bad
+
+
+def run_versions(seed, n, depth):
+    global PV, PFV, gen_atom
+    old = PV, PFV, gen_atom
+    PV = ["3.8", "3.9", "3.10", "3", "3.0", "3.8.0", " 3.8", "3.8 ", "03.08", "3.8.*", "3.*", "3.8.0.*", "0!3.8", "3.8.0.0", "3.9.0", "3.08.0", "4", "2.7", "3.8.1", "3.7", "0!3.*", "3.8.00", "3.9.*"]
+    PFV = PV + ["3.8.5", "3.9.1", "3.8.5.0", "3.8.10", "0!3.8.5", "3.8.5.*", "3.8.0.1", "3.9.0.0", "3.10.0", "4.0", "4.0.0", "3.8.05"]
+
+    def gen_atom(rng):
+        name = rng.choice(["python_version", "python_full_version", "python_version", "python_full_version", "platform_release"])
+        op = rng.choice(VOPS)
+        val = rng.choice(PV if name == "python_version" else PFV)
+        if op == "~=" and ("*" in val or "." not in val.strip()):
+            op = ">="
+        if "*" in val and op not in ("==", "!="):
+            op = "=="
+        return ("atom", name, op, val, rng.random() < 0.3)
+
+    try:
+        return run_random("versions", seed, n, depth)
+    finally:
+        PV, PFV, gen_atom = old
+
+
+def run_grouped():
+    from dep_logic.utils import OrderedSet
+    vals = ["a", "b", "ab", "", "c"]
+    envs = vals + ["abc", "d", "a b"]
+    objs = []
+    for r in (2, 3):
+        for vs in itertools.permutations(vals, r):
+            if r == 3 and vs[0] > vs[1]:
+                continue
+            objs.append((EqualityMarkerUnion("os_name", OrderedSet(vs)), (lambda x, vs=vs: x in vs), f"== any of {vs}"))
+            objs.append((InequalityMultiMarker("os_name", OrderedSet(vs)), (lambda x, vs=vs: x not in vs), f"!= all of {vs}"))
+    for v in vals + ["a b", "abc"]:
+        for op in ("==", "!=", "in", "not in"):
+            for rev in (False, True):
+                s = f'"{v}" {op} os_name' if rev else f'os_name {op} "{v}"'
+                pk = Marker(s)
+                objs.append((MarkerExpression("os_name", op, v, rev), (lambda x, pk=pk: pk.evaluate({"os_name": x})), s))
+    bad = n = 0
+    for (a, fa, la), (b, fb, lb) in itertools.product(objs, repeat=2):
+        n += 1
+        c, d = a & b, a | b
+        for x in envs:
+            env = {"os_name": x}
+            ea, eb = fa(x), fb(x)
+            got = (a.evaluate(env), b.evaluate(env), c.evaluate(env), d.evaluate(env))
+            exp = (ea, eb, ea and eb, ea or eb)
+            rt = [parse_marker(str(m)).evaluate(env) if not (m.is_any() or m.is_empty()) else m.evaluate(env) for m in (c, d)]
+            if got != exp or (c.is_empty() and exp[2]) or (d.is_any() and not exp[3]) or rt != [exp[2], exp[3]]:
+                print(f"[grouped] VIOLATION a = <{la}>  b = <{lb}>  os_name = {x!r}\n    library: a & b = <{c}> -> {got[2]}, a | b = <{d}> -> {got[3]}, re-parsed -> {rt}\n    oracle: a={ea} b={eb} and={exp[2]} or={exp[3]}")
+                bad += 1
+                break
+    print(f"[grouped] {n} pairs x {len(envs)} values, {bad} violations")
+    return bad
 
 
 if __name__ == "__main__":
-    main()
+    scale = float(sys.argv[1]) if len(sys.argv) > 1 else 1.0
+    total = 0
+    total += run_grouped()
+    total += run_random("general", 101, int(6000 * scale), 1)
+    total += run_random("general-deep", 102, int(300 * scale), 2)
+    total += run_random("build", 103, int(6000 * scale), 1, use_build=True)
+    total += run_random("roundtrip", 104, int(3000 * scale), 1, roundtrip=True)
+    total += run_versions(105, int(8000 * scale), 1)
+    total += run_versions(106, int(2000 * scale), 2)
+    print("NEW violations found:" if total else "no new violation found;", total)
